@@ -9,13 +9,16 @@
   with the endpoints, every order of half-closes, and the grace timer firing at any enabled moment.
 
   `c.replyExact` = the reply reader keeps its over-read for the copier (101 path), or it returns one
-  byte per read (dialvia's `byteReader`) and the upstream's 2xx reply declares no content.  The first
-  two are what the code has; `c03_reply_reader_block_buffered_witness` shows byte-wise reading is
-  needed.  The third excludes a defect of the unchanged tree (known finding F29): a `Content-Length`
-  on the upstream proxy's 2xx reply to CONNECT — which RFC 9110 §9.3.6 tells a client to ignore — is
-  honoured by `http.ReadResponse`, and `connectHTTP`'s `res.Body.Close()` then swallows that many
-  bytes of the tunnel.  The full-strength statement, the witness and the `_partial` theorem are in
-  section A.
+  byte per read (dialvia's `byteReader`).  These are the two readers the code has, so the hypothesis
+  describes the code, it excludes none of its behaviours; `c03_reply_reader_block_buffered_witness`
+  shows why a reader that is dropped must read byte-wise.
+
+  Finding F29 (repaired in `dialvia/http.go`): a `Content-Length` / `Transfer-Encoding` on the upstream
+  proxy's 2xx reply to CONNECT — which RFC 9110 §9.3.6 tells a client to ignore — used to be honoured
+  by `http.ReadResponse`, and `connectHTTP`'s `res.Body.Close()` then swallowed that many bytes of the
+  tunnel.  `DialContextR` now gives a 2xx reply `http.NoBody`; the model's reply reader accordingly
+  stops at the blank line whatever the reply's fields say (the former parameter `replyBody` is gone)
+  and `c03_down_delivered_prefix` holds at full strength, with no hypothesis about the reply.
 
   Bytes used in the examples: 72 = 'H' (head), 82 = 'R' (reply head), payload bytes 1 … 9.
 -/
@@ -28,7 +31,7 @@ namespace C03
 /-- code-shaped configuration used in the examples: 2-byte request head, 4-byte reader, copy
     buffer 3, 2-byte reply head read one byte at a time and dropped afterwards -/
 def exCfg : Cfg :=
-  { headLen := 2, bufSize := 4, copyMax := 3, replyLen := 2, replyBody := 0, replyGran := 1,
+  { headLen := 2, bufSize := 4, copyMax := 3, replyLen := 2, replyGran := 1,
     replyKeep := false }
 
 /-- head + 3 payload bytes in one client write (early data), reply + 2 bytes in one target write,
@@ -49,13 +52,12 @@ theorem c03_up_delivered_prefix {c : Cfg} {steps : List Step} {s : State}
   · rw [(hi.upReading hp).2.2.1]; exact List.nil_prefix
   · exact stream_up_prefix_of_cons hi hp
 
-/-- target → client: what the client has received is a prefix of what the far side wrote after its
-    reply head, minus the `dropped` bytes the reply reader took with it; `dropped` is bounded by the
-    declared content of the reply plus the reader's read granularity minus one -/
+/-- target → client, any reply reader: what the client has received is a prefix of what the far side
+    wrote after its reply head, minus the `dropped` bytes the reply reader took with it; `dropped` is
+    bounded by the reader's read granularity minus one -/
 theorem c03_down_delivered_prefix_general {c : Cfg} {steps : List Step} {s : State}
     (h : run c steps = some s) :
-    s.down.delivered <+: (stream c s .down).drop s.dropped ∧
-      s.dropped ≤ c.replyBody + (c.replyGran - 1) := by
+    s.down.delivered <+: (stream c s .down).drop s.dropped ∧ s.dropped ≤ c.replyGran - 1 := by
   have hi := inv_run h
   refine ⟨?_, hi.dropLe⟩
   by_cases hp : s.phase = .reading ∨ s.phase = .dialing
@@ -67,55 +69,59 @@ theorem c03_down_delivered_prefix_general {c : Cfg} {steps : List Step} {s : Sta
     rw [List.drop_drop, ← this, List.append_assoc]
     exact List.prefix_append _ _
 
+example : ∃ s, run { exCfg with replyLen := 3, replyGran := 2 }
+      [.clientWrite [72, 72], .readHead 0, .targetWrite [82, 82, 82, 7, 8], .replyRead 2, .replyRead 2,
+        .connected, .drain, .copy .down 1] = some s ∧ s.dropped = 1 ∧ s.down.delivered = [8] :=
+  ⟨_, rfl, by decide⟩
+
 /-- the reply reader of the code loses nothing: reading one byte at a time it has nothing buffered
-    when the blank line arrives, so it never consumes a byte past the reply head (and the declared
-    content, which is empty for a conforming upstream) -/
+    when the blank line arrives, so it never consumes a byte past the reply head — whatever content
+    the reply's fields declare, the bytes after the blank line are the tunnel's -/
 theorem c03_reply_reader_exact {c : Cfg} {steps : List Step} {s : State}
     (h : run c steps = some s) (hc : c.replyExact) :
-    s.dropped = 0 ∧
-      (c.replyGran ≤ 1 → s.phase = .dialing → s.down.taken ≤ c.replyLen + c.replyBody) := by
+    s.dropped = 0 ∧ (c.replyGran ≤ 1 → s.phase = .dialing → s.down.taken ≤ c.replyLen) := by
   have hi := inv_run h
   constructor
-  · rcases hc with hk | ⟨hg, hb⟩
+  · rcases hc with hk | hg
     · exact hi.dropKeep hk
     · have := hi.dropLe; omega
   · intro hg hp
     have := hi.downGran hp
     omega
 
-/-- full-strength clause "bytes the target (or upstream proxy) sent immediately after its own reply
-    are delivered" for the byte-wise reader — FALSE of the unchanged code (F29), see the witness -/
-def c03_down_delivered_prefix_full : Prop :=
-  ∀ (c : Cfg) (steps : List Step) (s : State), c.replyGran ≤ 1 → run c steps = some s →
-    s.down.delivered <+: stream c s .down
+example : exCfg.replyExact ∧ (run exCfg (exSteps.take 8)).isSome = true := by decide
 
-/-- target → client, under the hypothesis that excludes the defect class (the upstream's 2xx reply
-    declares no content) -/
-theorem c03_down_delivered_prefix_partial {c : Cfg} {steps : List Step} {s : State}
+/-- target → client, FULL strength: what the client has received is a prefix of what the far side
+    wrote after its reply head — in every reachable state, for both reply readers the code has
+    (byte-wise and dropped: upstream HTTP(S) proxy, SOCKS5; block-wise and kept: the 101 path), and
+    whatever the reply looks like.  In particular the bytes the target (or upstream proxy) sends
+    immediately after its own reply, in the same write or not, are delivered first and unharmed.
+    (Before the repair of F29 this needed the hypothesis "the upstream's 2xx reply declares no
+    content".) -/
+theorem c03_down_delivered_prefix {c : Cfg} {steps : List Step} {s : State}
     (h : run c steps = some s) (hc : c.replyExact) : s.down.delivered <+: stream c s .down := by
   have := (c03_down_delivered_prefix_general h).1
   rw [(c03_reply_reader_exact h hc).1, List.drop_zero] at this
   exact this
 
-/-- upstream reply `R R R` declaring two bytes of content, then `7 8 9` in the same write: the
-    dialer drains `7 8` as the reply's body and the client receives `9` -/
-theorem c03_reply_content_length_witness :
-    ∃ (c : Cfg) (steps : List Step) (s : State), c.replyGran = 1 ∧ c.replyKeep = false ∧
-      c.replyBody = 2 ∧ run c steps = some s ∧ s.dropped = 2 ∧ s.down.delivered = [9] ∧
-      stream c s .down = [7, 8, 9] ∧ s.down.delivered.isPrefixOf (stream c s .down) = false := by
-  refine ⟨{ exCfg with replyLen := 3, replyBody := 2 },
-    [.clientWrite [72, 72], .readHead 0, .targetWrite [82, 82, 82, 7, 8, 9], .replyRead 1, .replyRead 1,
-      .replyRead 1, .replyRead 1, .replyRead 1, .connected, .drain, .copy .down 1], ?_⟩
-  exact ⟨_, rfl, rfl, rfl, rfl, by decide⟩
+/-- the statement formerly kept as the false `c03_down_delivered_prefix_full`, word for word -/
+example : ∀ (c : Cfg) (steps : List Step) (s : State), c.replyGran ≤ 1 → run c steps = some s →
+    s.down.delivered <+: stream c s .down :=
+  fun _ _ _ hg hr => c03_down_delivered_prefix hr (Or.inr hg)
 
-theorem c03_down_delivered_prefix_full_false : ¬ c03_down_delivered_prefix_full := by
-  intro hf
-  obtain ⟨c, steps, s, hg, _, _, hr, _, _, _, hn⟩ := c03_reply_content_length_witness
-  have := hf c steps s (by omega) hr
-  rw [List.isPrefixOf_iff_prefix.mpr this] at hn
-  exact absurd hn (by decide)
+/-- the schedule that witnessed F29 — upstream reply `R R R` (say, carrying `Content-Length: 2`), then
+    `7 8 9` in the same write — now delivers `7 8 9`: the reader stops at the end of the head and
+    `connected` is enabled right there (before the repair two more `replyRead`s drained `7 8`) -/
+example : ∃ s, run { exCfg with replyLen := 3 }
+      [.clientWrite [72, 72], .readHead 0, .targetWrite [82, 82, 82, 7, 8, 9], .replyRead 1, .replyRead 1,
+        .replyRead 1, .connected, .drain, .copy .down 3] = some s ∧
+      s.dropped = 0 ∧ s.down.delivered = [7, 8, 9] ∧ stream { exCfg with replyLen := 3 } s .down = [7, 8, 9] :=
+  ⟨_, rfl, by decide⟩
 
-example : exCfg.replyExact ∧ (run exCfg (exSteps.take 8)).isSome = true := by decide
+/-- … and a fourth read of the reply reader is not a behaviour of the machine any more -/
+example : run { exCfg with replyLen := 3 }
+      [.clientWrite [72, 72], .readHead 0, .targetWrite [82, 82, 82, 7, 8, 9], .replyRead 1, .replyRead 1,
+        .replyRead 1, .replyRead 1] = none := by decide
 
 /-- a block-buffered reply reader (two bytes per read, reader dropped) swallows the byte the far
     side sent right after its reply: the client receives `8` where `7 8` was sent -/
@@ -465,7 +471,7 @@ def exStepsRecarried : List Step :=
     by any other bytes, as many (`RecarryAll d`): the machine accepts the new schedule step for step,
     the *opposite* pipe ends up identical — what its source wrote, what was delivered, what is held,
     every flag —, the pipe of `d` has delivered exactly as many bytes (which bytes:
-    `c03_up_delivered_prefix` / `c03_down_delivered_prefix_partial` of the new run), and phase and
+    `c03_up_delivered_prefix` / `c03_down_delivered_prefix` of the new run), and phase and
     socket closure are the same.  So no byte of one stream can turn up in, displace or reorder the
     other: the model's two pipes share no state.  In the code this is the assumption that the two
     `copier`s started by `bicopy` have nothing in common — each takes its *own* buffer from
